@@ -19,6 +19,7 @@ mod fam_groestl;
 mod fam_jh;
 mod fam_skein;
 mod fam_threefish;
+mod fam_align;
 
 pub static mut MISMATCHES: u32 = 0;
 pub static mut CASES: u64 = 0;
@@ -36,6 +37,7 @@ fn main() {
     let fam = a.get(1).map(|s| s.as_str()).unwrap_or("all");
     let seed: u64 = a.get(2).and_then(|s| s.parse().ok()).unwrap_or(1);
     let iters: usize = a.get(3).and_then(|s| s.parse().ok()).unwrap_or(300);
+    if fam == "align-child" { fam_align::child(); println!("REFCHECK family=align-child cases={} mismatches={}", unsafe { CASES }, unsafe { MISMATCHES }); std::process::exit(if unsafe { MISMATCHES } > 0 { 1 } else { 0 }); }
     let r = std::panic::catch_unwind(|| {
         if fam == "chacha" || fam == "all" { fam_chacha::run(seed, iters); }
         if fam == "blake" || fam == "all" { fam_blake::run(seed, iters); }
@@ -43,6 +45,7 @@ fn main() {
         if fam == "jh" || fam == "all" { fam_jh::run(seed, iters); }
         if fam == "skein" || fam == "all" { fam_skein::run(seed, iters); }
         if fam == "threefish" || fam == "all" { fam_threefish::run(seed, iters); }
+        if fam == "align" || fam == "all" { fam_align::run(seed, iters); }
     });
     if r.is_err() { println!("MISMATCH family={} case=panic the crate panicked (see stderr)", fam); unsafe { MISMATCHES += 1; } }
     let n = unsafe { MISMATCHES };
